@@ -140,17 +140,21 @@ let dpen (f : string) : penalties =
 (* ------------------------------------------------------------------ fragments *)
 (* rationals p/q or integers; both instances are run when everything is an integer *)
 let is_int_num (f : string) = not (String.contains f '/')
+let z_of_dec (s : string) : z =
+  if String.length s > 0 && s.[0] = '-' then
+    (match n_of_dec (String.sub s 1 (String.length s - 1)) with N0 -> Z0 | Npos p -> Zneg p)
+  else (match n_of_dec s with N0 -> Z0 | Npos p -> Zpos p)
 let dq (f : string) : q =
   match split_on '/' f with
-  | [p; qd] -> qred { qnum = z_of_int (int_of_string p); qden = pos_of_int (int_of_string qd) }
-  | [p] -> { qnum = z_of_int (int_of_string p); qden = XH }
+  | [p; qd] -> qred { qnum = z_of_dec p; qden = pos_of_int (int_of_string qd) }
+  | [p] -> { qnum = z_of_dec p; qden = XH }
   | _ -> failwith "bad num"
 let dfrag_with (conv : string -> Obj.t) (f : string) : frag =
   match split_on ':' f with
   | [a; b; c] -> { fw = conv a; fws = conv b; fpen = conv c }
   | _ -> failwith "bad frag"
 let qconv f = Obj.repr (dq f)
-let zconv f = Obj.repr (z_of_int (int_of_string f))
+let zconv f = Obj.repr (z_of_dec f)
 let egroups (gs : 'a list list) : string =
   let off = ref 0 in
   elist (fun g -> let l = List.length g in let s = Printf.sprintf "%d+%d" !off l in off := !off + l; s) gs
